@@ -24,7 +24,10 @@ def cmpCore (l : Line) (what : String) (c : State) (sp : Nat) (mk : String → V
 
 def checkC07 (l : Line) : Verdict :=
   let b := stdBus
-  let b := { b with io := { b.io with ifl := l.inN "if", ie := l.inN "ie", ieUpper := l.inN "ieu" } }
+  let st := l.inN "st"
+  let video := { b.io.video with lyc := l.inN "lyc", irqLyc := st &&& 0x40 != 0, irqM2 := st &&& 0x20 != 0,
+                                 irqM1 := st &&& 0x10 != 0, irqM0 := st &&& 0x08 != 0 }
+  let b := { b with io := { b.io with ifl := l.inN "if", ie := l.inN "ie", ieUpper := l.inN "ieu", video := video } }
   let sp := l.inN "sp"
   let c0 : State := { regs := { sp := sp, ip := l.inN "ip" }, bus := b, ime := imeOf (l.inN "ime"), run := runOf (l.inN "run") }
   match InterruptSpec.dispatch c0 with
